@@ -13,6 +13,7 @@ CHECKS = {
     "C03": "pprops",
     "C04": "pprops",
     "C05": "pprops",
+    "C10": "pprops",
     "C11": "pprops",
     "C12": "pprops",
     "C13": "pprops",
